@@ -286,6 +286,9 @@ def annotations(tier):
     add("Union[float,None,str]", Union[float, None, str])
     add("int|str", int | str)
     add("int|None", int | None)
+    add("float|None", float | None)
+    add("float|str", float | str)
+    add("dict[str,float|None]", dict[str, float | None])
     add("list[int]", list[int])
     add("set[str]", set[str])
     add("dict[str,int]", dict[str, int])
